@@ -827,6 +827,7 @@ def aggregate(check, results, tier, seed, t0, reported, stopped_early, second, n
         "sql_statements_traced": stmts,
         "clock_reads_by_code_under_test": clock_reads,
         "fault_and_probe_counters": dict(sorted(probes.items())),
+        "faults_injected": {k: v for k, v in sorted(probes.items()) if k.startswith(("fault_", "restart_", "rejected_op", "crash_", "mutate_", "sibling_", "other_store", "insert_through_stale", "observation_deferred", "event_observation_deferred"))},
         "probes_never_hit": never,
         "distinct_interleavings": len(inter),
         "determinism_rechecked_runs": len(second),
